@@ -195,7 +195,7 @@ func (g *vdb) checkC23(tr *lib.Trace, n *vnode) {
 	canon := func(rows []Row) *vresult { return vcanon(&g.ids, cols0, hdr, rows, th) }
 	next := canon(readAll(Next))
 	if strings.Join(next.rows, ";") != strings.Join(exp.rows, ";") {
-		tr.Fail("contract-rows:"+vshape(n), at()+" | as written "+vtrunc(exp.show(&g.ids), 300)+" | read "+vtrunc(next.show(&g.ids), 300))
+		tr.Fail("contract-rows:"+vshape(g.vlocalise(n, 1)), at()+" | as written "+vtrunc(exp.show(&g.ids), 300)+" | read "+vtrunc(next.show(&g.ids), 300))
 		return // the remaining checks compare with the rows as written
 	}
 	prev := canon(readAll(Prev))
